@@ -528,8 +528,41 @@ func runC20(c *core.Ctx) {
 			obj := core.ObjOf(info, e)
 			okLocal := obj != nil && obj != recv
 			if sel, isSel := e.(*ast.SelectorExpr); isSel {
-				_ = sel
+				// a method value of an object allocated by this call is as
+				// fresh as a closure over locals
 				okLocal = false
+				if base := core.ObjOf(info, sel.X); base != nil && base != recv && info.Selections[sel] != nil && info.Selections[sel].Kind() == types.MethodVal {
+					fresh, n := true, 0
+					for _, d := range core.AssignsTo(info, fn.Decl, base) {
+						as, ok := d.(*ast.AssignStmt)
+						if !ok {
+							fresh = false
+							continue
+						}
+						for i, l := range as.Lhs {
+							if core.ObjOf(info, l) != base || i >= len(as.Rhs) {
+								continue
+							}
+							n++
+							r := ast.Unparen(as.Rhs[i])
+							if u, ok := r.(*ast.UnaryExpr); ok && u.Op == token.AND {
+								r = ast.Unparen(u.X)
+							}
+							switch x := r.(type) {
+							case *ast.CompositeLit:
+							case *ast.CallExpr:
+								if core.CalleeKey(info, x) != "builtin.new" {
+									fresh = false
+								}
+							default:
+								fresh = false
+							}
+						}
+					}
+					if fresh && n > 0 {
+						continue
+					}
+				}
 			}
 			if okLocal {
 				for _, d := range core.AssignsTo(info, fn.Decl, obj) {
